@@ -19,6 +19,9 @@
 //   init 3: parsec_data_new + parsec_data_copy_new only (owner_device -1, every copy INVALID)
 //   owner_read_fast 1: a read-only access by the device whose copy is OWNED does not call the ownership functions
 //   (parsec_device_data_stage_in's "data already located in the right place" path: readers++ only).  0: it does.
+//   2: it does, and the history stops (counted, label known_C26-K1_reached_history_truncated) at the access where known
+//   finding C26-K1 manifests -- a reading access to a stale but not INVALID copy is told "no transfer" while the owner's
+//   copy was demoted from OWNED by its own read -- so everything else on such histories is still checked.
 #include <algorithm>
 #include <functional>
 #include <unistd.h>
@@ -108,7 +111,7 @@ static Result run_case(const Case &c) {
         if (!used[d]) { used[d] = true; ndev_used++; }
         long newest_val = -1; for (int i = 0; i < n; i++) if (has[i] && ver[i] == newest) newest_val = val[i];
 
-        if (c.fast && reads && !writes && shim_owner(data) == d && shim_coh(cp[d]) == shim_OWNED()) {
+        if (c.fast == 1 && reads && !writes && shim_owner(data) == d && shim_coh(cp[d]) == shim_OWNED()) {
             // data already in the right place: no ownership call, the task only pins its copy
             R.lab["owner_read_fast_path"]++;
             if (!uptodate) fail("the OWNED copy of the owner device is not the newest version in the model (" + state() + ")");
@@ -135,6 +138,10 @@ static Result run_case(const Case &c) {
         shim_lock(data);
         int from = shim_start(data, d, mode);
         if (!one_owner("after start_transfer")) { shim_unlock(data); break; }
+        if (expect_transfer && from < 0 && c.fast == 2 && shim_coh(cp[d]) != shim_INVALID() && shim_owner(data) >= 0 && shim_owner(data) < n
+            && shim_coh(cp[shim_owner(data)]) != shim_OWNED()) {
+            R.lab["known_C26-K1_reached_history_truncated"]++; shim_unlock(data); break;
+        }
         if (expect_transfer && from < 0) { fail("no transfer requested although copy " + std::to_string(d) + " (v" + std::to_string(shim_version(cp[d])) + ") is not up to date: newest is v" + std::to_string(newest) + " (" + state() + ")"); shim_unlock(data); break; }
         if (!expect_transfer && from >= 0) { fail(std::string("transfer from copy ") + std::to_string(from) + " requested although " + (reads ? "the target is up to date" : "the access does not read") + " (" + state() + ")"); shim_unlock(data); break; }
         if (from >= 0) {
@@ -189,10 +196,10 @@ static void note(const Case &c, const Result &r) {
     for (auto &kv : r.lab) if (kv.second) vf::label(kv.first, (uint64_t)kv.second);
 }
 
-static bool g_fast = true;
+static int g_fast = 1;
 
 static Case from_words(const Words &w) {
-    Case c; c.fast = g_fast ? 1 : 0;
+    Case c; c.fast = g_fast;
     if (w.size() < 2) return c;
     c.ndev = 2 + (int)(w[0] % 2);
     { static const int im[4] = {1, 1, 2, 3}; c.init = im[w[1] % 4]; }
@@ -230,7 +237,7 @@ static bool exh_rec(Case &c, int L, std::string *bad) {
 
 int main(int argc, char **argv) {
     std::string mode = argc > 1 ? argv[1] : "rc";
-    { const char *e = getenv("C26_OWNER_READ_VIA_TRANSFER"); if (e && *e == '1') g_fast = false; }
+    { const char *e = getenv("C26_OWNER_READ_VIA_TRANSFER"); if (e && *e == '1') g_fast = 0; if (e && *e == '2') g_fast = 2; }
     if (mode == "replay") {
         Case c; if (!parse_case(vf::slurp(argv[2]), &c)) { printf("REPLAY-FAIL unparsable\n"); return 1; }
         Result r = run_case(c);
@@ -239,7 +246,7 @@ int main(int argc, char **argv) {
     }
     crashnote::install();
     if (mode == "exh") {         // exh ndev init L firstdev firstmode   (the first access fixes the partition)
-        Case c; c.ndev = atoi(argv[2]); c.init = atoi(argv[3]); c.fast = g_fast ? 1 : 0; int L = atoi(argv[4]);
+        Case c; c.ndev = atoi(argv[2]); c.init = atoi(argv[3]); c.fast = g_fast; int L = atoi(argv[4]);
         std::string bad; bool ok;
         if (argc > 6) { c.h.push_back({atoi(argv[5]), atoi(argv[6])}); ok = exh_rec(c, L, &bad); }
         else ok = exh_rec(c, L, &bad);
